@@ -279,6 +279,16 @@ impl Exec {
     pub fn follow_stop(&mut self, h: u32) -> XResult<()> {
         self.call(&Cmd::FollowStop { h }).map(|_| ())
     }
+    /// One `xs::client` call inside the executor: Ok(body bytes) or Err(the client's error text).
+    pub fn client(&mut self, op: crate::exec::ClientOp) -> XResult<Result<Vec<u8>, String>> {
+        use base64::Engine as _;
+        let v = self.call(&Cmd::Client { call: op })?;
+        if let Some(e) = v.get("error").and_then(|e| e.as_str()) {
+            return Ok(Err(e.to_string()));
+        }
+        let body = v.get("body").and_then(|b| b.as_str()).unwrap_or("");
+        Ok(Ok(base64::engine::general_purpose::STANDARD.decode(body).unwrap_or_default()))
+    }
     pub fn serve_api(&mut self) -> XResult<PathBuf> {
         let v = self.call(&Cmd::ServeApi)?;
         Ok(PathBuf::from(v.as_str().unwrap()))
